@@ -11,8 +11,13 @@ Real code driven (in-process, tree under test):
   * ...StreamableSourceWrapper over that StreamReaderWrapper         target "ssw"
       (the stacking BufferedIOBaseSource.open builds)
   * ...StreamableSourceWrapper over the real PatchedIceCastClient    target "ice"
-      (object built without its download thread; each `feed` runs ONE turn of the real
-      _download_stream loop against a fake `requests` response with scripted short reads)
+      (the real download thread runs the real _stream_wrapper/_download_stream loop against a
+      fake `requests` response whose body returns scripted SHORT reads mid-stream and b"" only
+      at the true end; thread and consumer are hand-shaked so that exactly one of them runs
+      at any time and the schedule is part of the history: `fetch` lets the downloader run up
+      to the point where it is about to take the buffer lock, `store` lets it add the chunk
+      and go on to its next read/wait, `feed` = both; the consumer reads through
+      PatchedIceCastClient.read, whose end-of-stream flag `_stop_stream` is the real one)
 
 Every history is executed on the real objects, the same operations are sent to the Lean
 driver (Driver/C17.lean) and answers + observable buffer state are compared op by op.
@@ -61,9 +66,14 @@ WITNESSES = [
      "ops": [["read", 6], ["read", 3], ["seek", 6], ["read", 3]], "drain": 4},
     {"target": "ssw", "size": 10, "headroom": 5, "prot": True, "seed": 3, "srclen": 40, "ks": [1, 0, 2],
      "ops": [["read", 4], ["read", 4], ["seek", 0], ["prot", 0], ["read", 9], ["read", 9]], "drain": 5},
-    {"target": "ice", "size": 10, "headroom": 5, "prot": True, "seed": 1, "srclen": 30, "ks": [],
+    {"target": "ice", "size": 10, "headroom": 5, "prot": True, "seed": 1, "srclen": 30, "ks": [], "blk": 4, "gap": 1,
      "ops": [["feed", 4], ["feed", 4], ["feed", 4], ["read", 6], ["seek", 0], ["prot", 0], ["read", 7], ["feed", 4],
-             ["seek", 0], ["read", 9]], "drain": 3},
+             ["seek", 0], ["read", 3]], "drain": 3},
+    # HTTP body with short reads mid-stream (2 of 4, 1 of 4, ...), consumer reading between fetch and store
+    {"target": "ice", "size": 16, "headroom": 8, "prot": False, "seed": 7, "srclen": 37, "ks": [9, 1, 0, 9, 2],
+     "blk": 4, "gap": 1, "ops": [["feed", 4], ["fetch", 4], ["read", 4], ["store"], ["read", 2]], "drain": 5},
+    {"target": "ice", "size": 65536, "headroom": 32768, "prot": True, "seed": 9, "srclen": 20000, "ks": [10 ** 6, 4999],
+     "blk": 8192, "gap": 2, "ops": [["feed", 8192]], "drain": 4096},
     {"target": "buf", "size": 10, "headroom": 5, "prot": False, "seed": 0, "srclen": 0, "ks": [],
      "ops": [["addp", 0, 0, 12], ["get", 3], ["seek", 1], ["get", 3], ["seek", 7], ["get", 4], ["seek", 0],
              ["addp", 0, 10, 4], ["get", 9]], "drain": 3},
@@ -128,6 +138,7 @@ class ScriptedSource:
                 m = n
         out = self.data[self.off:self.off + m]
         self.off += len(out)
+        self.last_len = len(out)
         return out
 
 
@@ -200,27 +211,12 @@ def make_stream_reader(src, loop):
     return ScriptedStreamReader(loop=loop)
 
 
-class FakeResponse:
-    def __init__(self, src, client_ref):
-        self.status_code = 200
-        self.reason = "OK"
-        self.headers = {}
-        self.raw = self
-        self.src = src
-        self.client_ref = client_ref
-        self.read_called = False
+class _Abort(Exception):
+    """Raised inside the parked download thread when a session is torn down."""
 
-    def read(self, n):
-        self.read_called = True
-        chunk = self.src.take(n)
-        self.client_ref[0]._stop_stream = True  # one turn of the loop per `feed`
-        return chunk
 
-    def __enter__(self):
-        return self
-
-    def __exit__(self, *a):
-        return False
+class WouldWait(Exception):
+    """The consumer's read() would have to wait for the download thread."""
 
 
 class FakeRequests:
@@ -231,18 +227,139 @@ class FakeRequests:
         return self.response
 
 
-class FakeTime:
-    def __init__(self, client_ref):
-        self.client_ref = client_ref
-        self.t = 0.0
+class _Response:
+    """Fake `requests` response; its raw body is the rig (scripted short reads)."""
 
+    def __init__(self, rig):
+        self.status_code = 200
+        self.reason = "OK"
+        self.headers = {}
+        self.raw = rig
+
+    def __enter__(self):
+        return self
+
+    def __exit__(self, *a):
+        return False
+
+
+class _HookLock:
+    """The client's buffer lock; taking it is a scheduling point of the download thread."""
+
+    def __init__(self, rig):
+        self.rig = rig
+        self.lock = threading.Lock()
+
+    def __enter__(self):
+        if self.rig.in_downloader():
+            self.rig.park("lock")
+        self.lock.acquire()
+        return self
+
+    def __exit__(self, *a):
+        self.lock.release()
+        return False
+
+
+class IceRig:
+    """Real PatchedIceCastClient with its real download thread, scheduled deterministically.
+
+    Scheduling points of the download thread (D): the HTTP body's read(), time.sleep()
+    (waiting for room) and taking the buffer lock.  D runs only between `resume()` and its
+    next `park()`; the main thread (M, the consumer) runs only while D is parked."""
+
+    def __init__(self, A, buffer, src, blk):
+        self.src = src
+        self.parked = None          # "read" | "sleep" | "lock" | "finished"
+        self.budget = 0             # reads D may perform before it has to park
+        self.served = False
+        self.abort = False
+        self.t = 0.0
+        self.m_go = threading.Semaphore(0)
+        self.d_go = threading.Semaphore(0)
+        client = object.__new__(A.PatchedIceCastClient)
+        client.url = "http://verif.invalid/stream"
+        client.error_message = None
+        client._stop_stream = False
+        client._buffer = buffer
+        client._buffer_lock = _HookLock(self)
+        client.BLOCK_SIZE = blk
+        self.client = client
+        A.requests = FakeRequests(_Response(self))
+        A.time = self
+        self.thread = threading.Thread(target=self._main, daemon=True)
+        client._download_thread = self.thread
+        self.thread.start()
+        self._wait()
+
+    # -- handshake --------------------------------------------------------------------
+    def _main(self):
+        try:
+            self.client._stream_wrapper()
+        finally:
+            self.parked = "finished"
+            self.m_go.release()
+
+    def _wait(self):
+        if not self.m_go.acquire(timeout=20):
+            raise RuntimeError("download thread did not reach a scheduling point")
+
+    def park(self, kind):
+        self.parked = kind
+        self.m_go.release()
+        self.d_go.acquire()
+        if self.abort:
+            raise _Abort()
+
+    def resume(self):
+        self.d_go.release()
+        self._wait()
+
+    def in_downloader(self):
+        return threading.current_thread() is self.thread
+
+    # -- HTTP body ------------------------------------------------------------------------
+    def read(self, n):
+        if self.budget <= 0:
+            self.park("read")
+        self.budget -= 1
+        self.served = True
+        return self.src.take(n)
+
+    # -- time ---------------------------------------------------------------------------
     def monotonic(self):
         self.t += 1.0
         return self.t
 
     def sleep(self, _s):
-        # the download loop is waiting for room: end this turn
-        self.client_ref[0]._stop_stream = True
+        if self.in_downloader():
+            self.park("sleep")
+        else:
+            raise WouldWait()
+
+    # -- schedule operations (main thread) ------------------------------------------------
+    def fetch(self):
+        if self.parked in ("finished", "lock"):
+            return False
+        self.budget, self.served = 1, False
+        self.resume()
+        self.budget = 0
+        return self.served
+
+    def store(self):
+        if self.parked != "lock":
+            return False
+        self.budget = 0
+        self.resume()
+        return True
+
+    def close(self):
+        self.abort = True
+        if self.parked != "finished":
+            self.client._stop_stream = True
+            self.d_go.release()
+            self.m_go.acquire(timeout=20)
+        self.thread.join(20)
 
 
 # ---------------------------------------------------------------------------------------
@@ -303,20 +420,14 @@ class Session:
                     asyncio.set_event_loop(None)
             self.w = self.inner if t == "srw" else A.StreamableSourceWrapper(self.inner, self.buffer)
         elif t == "ice":
-            ref = [None]
-            client = object.__new__(A.PatchedIceCastClient)
-            client.url = "http://verif.invalid/stream"
-            client.error_message = None
-            client._stop_stream = True
-            client._buffer = self.buffer
-            client._buffer_lock = threading.Lock()
-            client._download_thread = None
-            ref[0] = client
-            self.client = client
-            self.response = FakeResponse(self.src, ref)
-            A.requests = FakeRequests(self.response)
-            A.time = FakeTime(ref)
-            self.w = A.StreamableSourceWrapper(client, self.buffer, name="verif")
+            self.rig = IceRig(A, self.buffer, self.src, h["blk"])
+            self.client = self.rig.client
+            self.w = A.StreamableSourceWrapper(self.client, self.buffer, name="verif")
+
+    def close(self):
+        rig = getattr(self, "rig", None)
+        if rig is not None:
+            rig.close()
 
     # -- observation ------------------------------------------------------------------
     def obs(self):
@@ -327,10 +438,16 @@ class Session:
         except Exception:
             stored, hh = "?", "?"
         try:
-            return "%d %d %d %s %s %s %d" % (b.position, len(b), b.remaining, stored, hh,
+            line = "%d %d %d %s %s %s %d" % (b.position, len(b), b.remaining, stored, hh,
                                              bit(b.protected_headroom), self.src.off)
+            if self.target == "ice":
+                line += " " + bit(self.client._stop_stream)
+            return line
         except Exception as e:
             return "obs-error:" + type(e).__name__
+
+    def stopped(self):
+        return bool(getattr(self.client, "_stop_stream", True)) if self.target == "ice" else True
 
     def apply(self, op):
         try:
@@ -372,15 +489,15 @@ class Session:
                     return "f:" + bit(r) if isinstance(r, bool) else "err:type"
                 r = self.w.seek(op[1], io.SEEK_CUR)
                 return "p:%d" % r if isinstance(r, int) and not isinstance(r, bool) else "err:type"
-            if name == "feed" and t == "ice":
-                self.client.BLOCK_SIZE = op[1]
-                self.response.read_called = False
-                self.client._stop_stream = False
-                try:
-                    self.client._download_stream()
-                finally:
-                    self.client._stop_stream = True
-                return "f:" + bit(self.response.read_called)
+            if t == "ice" and name in ("feed", "fetch"):
+                if op[1] != self.h["blk"]:
+                    raise ValueError("block size is fixed per history")
+                ok = self.rig.fetch()
+                if ok and name == "feed":
+                    self.rig.store()
+                return "f:" + bit(ok)
+            if t == "ice" and name == "store":
+                return "f:" + bit(self.rig.store())
         raise ValueError("operation %r not valid for %s" % (op, t))
 
     def _data(self, r):
@@ -429,6 +546,8 @@ class Reference:
 
     def step(self, i, op, token, data):
         name = op[0]
+        if token == "err:WouldWait":
+            return      # the consumer would merely have to wait: not a verdict about the bytes
         if token.startswith("err:") and name != "prot":
             self.problem("exception", i, op, "operation raised/returned %s" % token)
             return
@@ -469,9 +588,17 @@ def run_history(env, h, want_lines=True):
     """Execute h on the real code (ops, then the drain); returns the executed op list,
     implementation lines, reference problems and event flags."""
     sess = Session(env, h)
+    try:
+        return _run_history(sess, h)
+    finally:
+        sess.close()
+
+
+def _run_history(sess, h):
     ref = Reference(h)
     ops_done, lines, flags = [], [], set()
     seek_seen = False
+    ice = h["target"] == "ice"
 
     def do(op):
         nonlocal seek_seen
@@ -493,12 +620,15 @@ def run_history(env, h, want_lines=True):
             flags.add("seek-ok" if (token == "f:1" or token == "p:%d" % op[1]) else "seek-fail")
         if op[0] in ("read", "get") and token.startswith("d:") and sess.last and seek_seen:
             flags.add("read-after-seek")
+        if ice and op[0] in ("fetch", "feed") and token == "f:1" and 0 < len(sess.src.calls) and \
+                sess.src.off < len(sess.S) and sess.src.last_len < op[1]:
+            flags.add("short-read-mid-stream")
         return token
 
     for op in h["ops"]:
         do(op)
 
-    # drain: everything still owed must come out, in order
+    # drain: everything still owed must come out, in order, up to the TRUE end of the source
     dn = h.get("drain") or 0
     if dn:
         verb = "get" if h["target"] == "buf" else "read"
@@ -515,22 +645,45 @@ def run_history(env, h, want_lines=True):
             owed0 = total - min(ref.cur, total)
             dn = max(dn, owed0 // 40 + 1) if owed0 > 40 * dn else dn   # keep the drain short (deterministic)
             limit = 2 * owed0 + 8
-            empty_reads = 0
-            while limit > 0:
-                limit -= 1
-                if h["target"] == "ice":
-                    # a block the download loop can always place once the unread data is gone
-                    do(["feed", max(1, min(max(h.get("blk", 4), dn), h["size"] - h["headroom"]))])
-                tok = do([verb, dn])
-                if not tok.startswith("d:"):
-                    break
-                if not sess.last:
-                    empty_reads += 1
-                    src_left = h["target"] == "ice" and sess.src.off < len(sess.S)
-                    if not src_left or empty_reads > 2:
+            if not ice:
+                while limit > 0:
+                    limit -= 1
+                    tok = do([verb, dn])
+                    if not tok.startswith("d:") or not sess.last:
                         break
-                else:
-                    empty_reads = 0
+            else:
+                # the consumer behaves like the decoder: it reads until read() returns b"" while
+                # the stream is flagged as ended; the schedule (is there a consumer read between
+                # the downloader's fetch and its store?) is part of the history
+                gap, blk, stalls, eof, turn = h.get("gap", 0), h["blk"], 0, False, 0
+
+                def consume():
+                    nonlocal eof
+                    stopped = sess.stopped()
+                    n = dn if stopped else min(dn, len(sess.buffer))
+                    if n < 1:
+                        return False
+                    tok = do(["read", n])
+                    if not tok.startswith("d:"):
+                        eof = True
+                        return False
+                    if stopped and not sess.last:
+                        eof = True
+                    return bool(sess.last)
+
+                while limit > 0 and not eof:
+                    limit -= 1
+                    turn += 1
+                    progress = do(["fetch", blk]) == "f:1"
+                    if gap == 1 or (gap == 2 and turn % 2 == 0):
+                        progress = consume() or progress
+                    if eof:
+                        break
+                    progress = (do(["store"]) == "f:1") or progress
+                    progress = consume() or progress
+                    stalls = 0 if progress else stalls + 1
+                    if stalls > 2:
+                        break
             if not ref.problems:
                 owed = len(ref.stream()) - ref.cur
                 if owed > 0:
@@ -542,8 +695,8 @@ def run_history(env, h, want_lines=True):
 # ---------------------------------------------------------------------------------------
 # generation
 
-def gen_history(rng, thorough, big=False):
-    target = rng.choice(["buf", "buf"] + KINDS + ["bio", "srw"])
+def gen_history(rng, thorough, big=False, targets=None):
+    target = rng.choice(targets or (["buf", "buf"] + KINDS + ["bio", "srw", "ice"]))
     size, headroom = rng.choice(BIG_SIZES if big else SIZES)
     if rng.chance(0.15) and not big:
         size = rng.randint(1, 40)
@@ -555,9 +708,19 @@ def gen_history(rng, thorough, big=False):
     top = rng.choice([0, 2, max(1, headroom), size + 1])
     ks = [rng.choice([0, 0, 1, rng.randint(0, top), 10 ** 6]) for _ in range(nks)]
     maxops = rng.randint(1, 24 if thorough else 12)
+    # the download loop can always place a block once the unread data is gone iff
+    # BLOCK_SIZE <= buffer - headroom (production: 8192 <= 32768)
+    cap = max(1, size - headroom)
+    blk = min(cap, rng.choice([1, 2, 3, max(1, cap // 2), cap, 8192]))
+    if target == "ice":
+        srclen = min(srclen, 40 * blk + rng.randint(0, blk))
+        # HTTP bodies: short reads of 1..BLOCK_SIZE-1 bytes mid-stream, sometimes full blocks
+        nks = rng.choice([0, 4, 64, 64])
+        ks = [rng.choice([rng.randint(0, max(0, blk - 2)), rng.randint(0, max(0, blk - 2)), 0, 10 ** 6])
+              for _ in range(nks)]
     return {"target": target, "size": size, "headroom": headroom, "prot": prot, "seed": seed, "srclen": max(0, srclen),
             "ks": ks, "ops": [], "drain": rng.choice([0, 1, 3, headroom, size + 1, size]),
-            "blk": rng.choice([1, 2, max(1, size // 2), size]), "_maxops": maxops}
+            "blk": blk, "gap": rng.choice([0, 1, 2]), "_maxops": maxops}
 
 
 def pick_size(rng, sess, h):
@@ -598,11 +761,20 @@ def gen_op(rng, sess, h, offered):
             return ["seek", pick_seek(rng, sess, h)]
         return ["prot", rng.choice([0, 1])]
     if t == "ice":
-        if r < 0.35:
-            return ["feed", rng.choice([h["blk"], h["blk"], 1, pick_size(rng, sess, h) or 1])]
-        if r < 0.70:
-            return ["read", pick_size(rng, sess, h)]
-        if r < 0.92:
+        holding = sess.rig.parked == "lock"
+        if holding and r < 0.35:
+            return ["store"]
+        if r < 0.24:
+            return ["feed", h["blk"]]
+        if r < 0.38:
+            return ["fetch", h["blk"]]
+        if r < 0.46:
+            return ["store"]
+        if r < 0.74:
+            n = pick_size(rng, sess, h)
+            # the consumer only reads what it does not have to wait for (see IWorld.step)
+            return ["read", n if sess.stopped() else min(n, len(sess.buffer))]
+        if r < 0.93:
             return ["seek", pick_seek(rng, sess, h)]
         return ["prot", rng.choice([0, 1])]
     if r < 0.60:
@@ -614,19 +786,22 @@ def gen_op(rng, sess, h, offered):
     return ["prot", rng.choice([0, 1])]
 
 
-def build_history(env, rng, thorough, big=False):
+def build_history(env, rng, thorough, big=False, targets=None):
     """Adaptive generation: the next operation looks at the real buffer's state (that is how
     sizes get biased to room±1 etc.); the resulting explicit op list is what is recorded."""
-    h = gen_history(rng, thorough, big)
+    h = gen_history(rng, thorough, big, targets)
     maxops = h.pop("_maxops")
     sess = Session(env, h)
-    offered = [0]
-    for _ in range(maxops):
-        op = gen_op(rng, sess, h, offered)
-        if op[0] == "addp":
-            offered[0] += op[3]
-        h["ops"].append(op)
-        sess.apply(op)
+    try:
+        offered = [0]
+        for _ in range(maxops):
+            op = gen_op(rng, sess, h, offered)
+            if op[0] == "addp":
+                offered[0] += op[3]
+            h["ops"].append(op)
+            sess.apply(op)
+    finally:
+        sess.close()
     return h
 
 
@@ -649,6 +824,8 @@ def check_histories(ctx, env, histories, tag):
         ctx.note("target:" + h["target"])
         ctx.note("sizes:%d/%d" % (h["size"], h["headroom"]) if h["size"] > 100 else "sizes:small")
         ctx.note("hop:" + tag)
+        if h["target"] == "ice":
+            ctx.note("ice-schedule:gap%d" % h.get("gap", 0))
         for f in flags:
             ctx.note("event:" + f)
         for op in ops_done:
@@ -674,7 +851,8 @@ def check_histories(ctx, env, histories, tag):
 
 
 def strip(h):
-    return {k: h[k] for k in ("target", "size", "headroom", "prot", "seed", "srclen", "ks", "ops", "drain", "blk") if k in h}
+    return {k: h[k] for k in ("target", "size", "headroom", "prot", "seed", "srclen", "ks", "ops", "drain", "blk", "gap")
+            if k in h}
 
 
 def run(ctx, only=None):
@@ -699,11 +877,7 @@ def run(ctx, only=None):
     env = Env(thread_hop=True)
     try:
         gt = rng.fork("thread-hop")
-        hs = []
-        while len(hs) < ctx.scale(40, 200):
-            h = build_history(env, gt, ctx.thorough)
-            if h["target"] in ("srw", "ssw"):
-                hs.append(h)
+        hs = [build_history(env, gt, ctx.thorough, targets=["srw", "ssw"]) for _ in range(ctx.scale(40, 200))]
         check_histories(ctx, env, hs, "thread")
     finally:
         env.close()
